@@ -348,6 +348,11 @@ def cstr (bs : Bytes) : Bytes := bs.takeWhile (· ≠ 0)
 /-- `CappedString::check_padding_warn`: a non-zero byte after the first NUL -/
 def weirdPadding (bs : Bytes) : Bool := (bs.dropWhile (· ≠ 0)).any (· ≠ 0)
 
+/-- `markers: [0; 64]` as written -/
+def zeroMarkerBytes : Bytes := List.replicate 256 0
+/-- `TimelineMarkers::default().markers` -/
+def noMarkers : List Int := List.replicate 64 0
+
 /-- the bytes `Writer::new` writes; `none` = panic (`from_raw` capacity assertions, `assert_i32`, negative length) -/
 def encodeHeader (a : HeaderArgs) : Option Bytes :=
   if ¬ (a.netVersion.length < 64 ∧ a.mapName.length < 64 ∧ a.timestamp.length < 20
@@ -357,7 +362,7 @@ def encodeHeader (a : HeaderArgs) : Option Bytes :=
       ++ capped 64 a.netVersion ++ capped 64 a.mapName
       ++ be32 a.map.length ++ be32 a.crc ++ a.kind.magic ++ be32 (toU32 a.length)
       ++ capped 20 a.timestamp
-      ++ be32 0 ++ List.replicate 256 0
+      ++ be32 0 ++ zeroMarkerBytes
       ++ (match a.sha with | none => [] | some s => shaExtension ++ s)
       ++ a.map)
 
@@ -385,50 +390,117 @@ def nonIncreasing : List Int → Bool
   | a :: b :: rest => decide (a ≥ b) || nonIncreasing (b :: rest)
   | _ => false
 
-/-- `HeaderStart::read` followed by the two `check` calls of `Reader::new`; `none` = error.
-Returns the header, the rest of the file (the chunk data) and the warnings. -/
-def readHeader (file : Bytes) : Option (HeaderInfo × Bytes × List Warning) := do
-  let (m, r) ← takeN 7 file
-  if m ≠ magic then none
-  let (vb, r) ← takeN 1 r
-  let version ← Version.ofByte (beVal vb)
-  let (netVersion, r) ← takeN 64 r
-  let (mapName, r) ← takeN 64 r
-  let (ms, r) ← takeN 4 r
-  let mapSize := toI32 (beVal ms)
-  if mapSize < 0 then none
-  let (crc, r) ← takeN 4 r
-  let (k, r) ← takeN 8 r
-  let kind ← if k = Kind.client.magic then some Kind.client
-    else if k = Kind.server.magic then some Kind.server else none
-  let (len, r) ← takeN 4 r
-  let length := toI32 (beVal len)
-  if length < 0 then none
-  let (timestamp, r) ← takeN 20 r
-  let ws1 := (if weirdPadding netVersion then [Warning.weirdNetVersion] else [])
+/-- the `Version` and `Header` parts of `HeaderStart::read` (magic, version byte, 168 bytes) -/
+structure FixedHeader where
+  version : Version
+  netVersion : Bytes
+  mapName : Bytes
+  mapSize : Nat
+  crc : Nat
+  kind : Kind
+  length : Int
+  timestamp : Bytes
+  deriving DecidableEq, Repr
+
+def readKind (k : Bytes) : Option Kind :=
+  if k = Kind.client.magic then some Kind.client
+  else if k = Kind.server.magic then some Kind.server else none
+
+def readFixed (file : Bytes) : Option (FixedHeader × Bytes) :=
+  match takeN 7 file with
+  | none => none
+  | some (m, r) =>
+  if m ≠ magic then none else
+  match takeN 1 r with
+  | none => none
+  | some (vb, r) =>
+  match Version.ofByte (beVal vb) with
+  | none => none
+  | some version =>
+  match takeN 64 r with
+  | none => none
+  | some (netVersion, r) =>
+  match takeN 64 r with
+  | none => none
+  | some (mapName, r) =>
+  match takeN 4 r with
+  | none => none
+  | some (ms, r) =>
+  if toI32 (beVal ms) < 0 then none else
+  match takeN 4 r with
+  | none => none
+  | some (crc, r) =>
+  match takeN 8 r with
+  | none => none
+  | some (k, r) =>
+  match readKind k with
+  | none => none
+  | some kind =>
+  match takeN 4 r with
+  | none => none
+  | some (len, r) =>
+  if toI32 (beVal len) < 0 then none else
+  match takeN 20 r with
+  | none => none
+  | some (timestamp, r) =>
+    some ({ version, netVersion, mapName, mapSize := (toI32 (beVal ms)).toNat, crc := beVal crc, kind,
+            length := toI32 (beVal len), timestamp }, r)
+
+/-- the `TimelineMarkers` part (`#[br(if(version >= Version::V4))]`, else the default): the amount
+and all 64 markers -/
+def readMarkers (version : Version) (r : Bytes) : Option (Nat × List Int × Bytes) :=
+  if version.num ≥ 4 then
+    match takeN 4 r with
+    | none => none
+    | some (am, r) =>
+    if toI32 (beVal am) < 0 ∨ toI32 (beVal am) > 64 then none else
+    match takeN 256 r with
+    | none => none
+    | some (mk, r) => some ((toI32 (beVal am)).toNat, readI32s 64 mk, r)
+  else some (0, noMarkers, r)
+
+/-- the `MapSha256` part (`#[br(if(version == Version::V6Ddnet))]`) -/
+def readSha (version : Version) (r : Bytes) : Option (Option Bytes × Bytes) :=
+  if version = .v6 then
+    match takeN 16 r with
+    | none => none
+    | some (u, r) =>
+    if u ≠ shaExtension then none else
+    match takeN 32 r with
+    | none => none
+    | some (s, r) => some (some s, r)
+  else some (none, r)
+
+/-- the warnings of `Header::check` -/
+def headerWarnings (netVersion mapName timestamp : Bytes) : List Warning :=
+  (if weirdPadding netVersion then [Warning.weirdNetVersion] else [])
     ++ (if weirdPadding mapName then [Warning.weirdMapName] else [])
     ++ (if weirdPadding timestamp then [Warning.weirdTimestamp] else [])
-  let (amount, all, r) ←
-    if version.num ≥ 4 then do
-      let (am, r) ← takeN 4 r
-      let amount := toI32 (beVal am)
-      if amount < 0 ∨ amount > 64 then none
-      let (mk, r) ← takeN 256 r
-      pure (amount.toNat, readI32s 64 mk, r)
-    else pure (0, List.replicate 64 (0 : Int), r)
-  let markers := all.take amount
-  let ws2 := (if (all.drop amount).any (· ≠ 0) then [Warning.weirdTimelineMarkerPadding] else [])
-    ++ (if nonIncreasing markers then [Warning.nonAbsoluteTickmarkerTick] else [])
-  let (sha, r) ←
-    if version = .v6 then do
-      let (u, r) ← takeN 16 r
-      if u ≠ shaExtension then none
-      let (s, r) ← takeN 32 r
-      pure (some s, r)
-    else pure (none, r)
-  let (map, r) ← takeN mapSize.toNat r
-  pure ({ version, netVersion := cstr netVersion, mapName := cstr mapName, mapSize := mapSize.toNat,
-          crc := beVal crc, kind, length, timestamp := cstr timestamp, markers, sha, map }, r, ws1 ++ ws2)
+
+/-- the warnings of `TimelineMarkers::check` -/
+def markerWarnings (amount : Nat) (all : List Int) : List Warning :=
+  (if (all.drop amount).any (· ≠ 0) then [Warning.weirdTimelineMarkerPadding] else [])
+    ++ (if nonIncreasing (all.take amount) then [Warning.nonAbsoluteTickmarkerTick] else [])
+
+/-- `HeaderStart::read` followed by the two `check` calls of `Reader::new`; `none` = error.
+Returns the header, the rest of the file (the chunk data) and the warnings. -/
+def readHeader (file : Bytes) : Option (HeaderInfo × Bytes × List Warning) :=
+  match readFixed file with
+  | none => none
+  | some (f, r) =>
+  match readMarkers f.version r with
+  | none => none
+  | some (amount, all, r) =>
+  match readSha f.version r with
+  | none => none
+  | some (sha, r) =>
+  match takeN f.mapSize r with
+  | none => none
+  | some (map, r) =>
+    some ({ version := f.version, netVersion := cstr f.netVersion, mapName := cstr f.mapName,
+            mapSize := f.mapSize, crc := f.crc, kind := f.kind, length := f.length,
+            timestamp := cstr f.timestamp, markers := all.take amount, sha, map },
+          r, headerWarnings f.netVersion f.mapName f.timestamp ++ markerWarnings amount all)
 
 /-! ### low-level writer (`writer.rs`) -/
 
